@@ -229,7 +229,7 @@ func (w *world) quorum(t *big.Int) bool {
 
 // relax switches off single clauses of the reference; used only to NAME the root cause of a violation.
 type relax struct {
-	blockID, signer, corrupt, chain, height, round, typ, equal bool
+	blockID, signer, byAddr, corrupt, chain, height, round, typ, equal bool
 }
 
 // refCommit decides whether the slots (descriptor per validator index, nil = absent) contain correctly
@@ -250,7 +250,14 @@ func (w *world) refCommit(slots []*vdesc, claimed int, h uint64, off int, rx rel
 		if !rx.blockID && d.block != claimed {
 			continue
 		}
-		if !rx.signer && d.signer != off+i {
+		power := w.powers[i]
+		if rx.byAddr {
+			// tally by the address the vote names instead of by slot (double counts a validator whose vote is repeated)
+			if d.addrOf < off || d.addrOf >= off+w.n || d.signer != d.addrOf {
+				continue
+			}
+			power = w.powers[d.addrOf-off]
+		} else if !rx.signer && d.signer != off+i {
 			continue
 		}
 		if !rx.corrupt && d.corrupt {
@@ -266,28 +273,35 @@ func (w *world) refCommit(slots []*vdesc, claimed int, h uint64, off int, rx rel
 		if rounds[r] == nil {
 			rounds[r] = new(big.Int)
 		}
-		rounds[r].Add(rounds[r], big.NewInt(w.powers[i]))
+		rounds[r].Add(rounds[r], big.NewInt(power))
+	}
+	if rx.equal && len(rounds) == 0 {
+		rounds[0] = new(big.Int) // an empty tally is a tally of zero
 	}
 	for _, t := range rounds {
 		if w.quorum(t) {
 			return true
 		}
-		if rx.equal && new(big.Int).Mul(t, big.NewInt(3)).Cmp(new(big.Int).Mul(w.total, big.NewInt(2))) == 0 {
+		if rx.equal && w.quorum(new(big.Int).Add(t, big.NewInt(1))) {
 			return true
 		}
 	}
 	return false
 }
 
-// cause names which single clause, if dropped, would explain an acceptance the reference refuses.
-func (w *world) cause(slots []*vdesc, claimed int, h uint64, off int) string {
+// cause names the single clause of the reference that, if dropped, explains an acceptance the reference
+// refuses. ok is false when no single clause or more than one explains it (such a case does not identify a
+// root cause on its own).
+func (w *world) cause(slots []*vdesc, claimed int, h uint64, off int) (name string, ok bool) {
+	var hit []string
 	for _, c := range []struct {
 		name string
 		rx   relax
 	}{
-		{"exactly-two-thirds-accepted", relax{equal: true}},
+		{"tally-one-short-of-quorum", relax{equal: true}},
 		{"counts-other-block-id", relax{blockID: true}},
 		{"counts-signature-of-other-key", relax{signer: true}},
+		{"tallies-by-address-instead-of-slot", relax{byAddr: true}},
 		{"counts-corrupted-signature", relax{corrupt: true}},
 		{"counts-signature-for-other-chain", relax{chain: true}},
 		{"counts-other-height", relax{height: true}},
@@ -295,10 +309,13 @@ func (w *world) cause(slots []*vdesc, claimed int, h uint64, off int) string {
 		{"counts-non-precommit", relax{typ: true}},
 	} {
 		if w.refCommit(slots, claimed, h, off, c.rx) {
-			return c.name
+			hit = append(hit, c.name)
 		}
 	}
-	return "several-clauses"
+	if len(hit) == 1 {
+		return hit[0], true
+	}
+	return fmt.Sprintf("%v", hit), false
 }
 
 // clean: every present slot is a correctly signed precommit of its own validator at height h and all
